@@ -57,7 +57,7 @@ ASSUMPTIONS = [
     "bin-width bound is judged with relative slack 1e-12 (one rounding of the quotient inside ceil)",
 ]
 QUICK = dict(cases=900, workers=2, timecap=45)
-THOROUGH = dict(cases=60000, workers=16, timecap=600)
+THOROUGH = dict(cases=40000, workers=16, timecap=420)
 REQUIRED = {"diff_final": 2500, "diff_shadow": 10000, "diff_read": 2500, "inv_range": 40000, "inv_binwidth": 40000,
             "calib": 80000, "set_accepted": 1200, "set_rejected": 120}
 
